@@ -14,14 +14,16 @@ CFG = dict(
           "its invocation, is checked against a reference scheduler (allowed here? status? position in the batch?) and "
           "then executes a PRNG script through the real API: schedule fresh tasks now / past / current / future, "
           "re-schedule its own aws_task, cancel pending tasks (preferring members of the running batch that have not run "
-          "yet); cancelled tasks run their scripts nested. After every top-level call has_tasks / next time / is_valid are "
+          "yet) or cancel a task that was only aws_task_init()-ed and never given to the scheduler (it must be invoked once "
+          "as cancelled and nothing else may be disturbed); cancelled tasks run their scripts nested. After every top-level call has_tasks / next time / is_valid are "
           "compared with the reference; after every run_all the batch log is compared (set, statuses, order up to "
           "permutation of equal timestamps); after every clean_up each incarnation must have exactly one invocation and "
           "the allocator must balance. non-trivial = some run_all batch had >= 2 members, at least one re-entrant script "
           "action was executed and >= 5 distinct mechanisms were observed; distinct = FNV fingerprint of configuration, "
           "top-level op stream and executed script actions."),
     assumptions=["single-threaded use of aws_task_scheduler (the documented usage)",
-                 "only tasks pending in the reference are cancelled (cancel_task runs any task handed to it)",
+                 "only tasks pending in the reference, or fresh aws_task_init()-ed tasks the scheduler never saw, are cancelled "
+                 "(cancel_task runs any task handed to it, so cancelling a task that already ran would be a caller error)",
                  "harness allocator never fails, so the timed_list overflow path is unreachable (DESIGN section 6)",
                  "order among timed tasks with equal timestamps, and order inside clean_up, are not constrained"],
     min_counts={"any": {"cancel_of_batch_member_not_yet_run": 200, "task_reschedules_itself": 200,
